@@ -68,6 +68,98 @@ theorem C02_steps_equivalence (ext : Bool) (dss : List (List Call)) (hx : ∀ ds
       subst e
       exact ⟨cond, hc, by rw [← rep_val hj X n cond hrep]; exact hb⟩
 
+/-- the translation statement of `C02_steps_stable_models_ext` for a GIVEN table of auxiliary atoms (so that other invariants over the same table can be
+    used with it): with the extension on, the rules given in all steps plus the reading of all external directives translate to the rules emitted plus the
+    reading of the external calls emitted -/
+theorem steps_trans_ext_of (dss : List (List Call)) (hx : ∀ ds ∈ dss, ∀ d ∈ ds, PlainOk d) {defs : List (Nat × Body)}
+    (hj : J (convert true (stepsCalls dss)) ((rulesOf dss.flatten).filter kept) defs) :
+    Trans (ctxOf (convert true (stepsCalls dss)) defs) ((rulesOf dss.flatten).filter kept ++ extRules dss.flatten) (progOf (convert true (stepsCalls dss)).out) := by
+  have tr := ctx_trans hj
+  have ok := ctx_ok hj
+  have a1 : J (CS.apply { ext := true } (.initProgram true)) [] [] := by
+    rw [apply_init _ rfl]; exact (J.init true).emit _ rfl
+  have d1 : XI (CS.apply { ext := true } (.initProgram true)) {} := by
+    rw [apply_init _ rfl]; exact (XI.init true).emit _
+  have he : (CS.apply { ext := true } (.initProgram true)).ext = true := by rw [apply_init _ rfl]; rfl
+  have hE := C02_steps_externals dss hx
+  have hdom : ∀ p ∈ stepRegs {} dss, p.1 ∈ (ctxOf (convert true (stepsCalls dss)) defs).dom := by
+    intro p hp
+    have := steps_regs_dom dss hx a1 d1 rfl he p hp
+    rw [← convert_steps_eq] at this
+    exact this
+  have hH : ∀ b ∈ (({} : T).run dss.flatten).heads, b ∈ headsOf dss.flatten := by
+    intro b hb; rw [run_heads] at hb; simpa using hb
+  have hatoms : ((stepRegs {} dss).map (·.1)).filter (fun a => !(headsOf dss.flatten).contains a)
+      = ((extCalls dss.flatten).map (·.1)).filter (fun a => !(headsOf dss.flatten).contains a) := by
+    rw [(stepRegs_atoms dss {} rfl).1]
+    have := run_regs dss.flatten {} (headsOf dss.flatten) hH
+    simpa using this
+  have hlast : ∀ a, a ∈ (stepRegs {} dss).map (·.1) → (headsOf dss.flatten).contains a = false → lastOf (stepRegs {} dss) a = lastOf (extCalls dss.flatten) a := by
+    intro a _ hc
+    exact stepRegs_last dss {} rfl (headsOf dss.flatten) hH a (by simpa using hc)
+  have hhd : ∀ p ∈ stepRegs {} dss, (headsOf dss.flatten).contains p.1 = true ↔ ∃ r ∈ (rulesOf dss.flatten).filter kept, p.1 ∈ r.head := by
+    intro p _
+    rw [List.contains_iff_mem]
+    exact headsOf_mem dss.flatten p.1
+  have hout := extRules_out_steps (ctxOf (convert true (stepsCalls dss)) defs) ok _ _ tr (stepRegs {} dss) (extCalls dss.flatten) (headsOf dss.flatten)
+    hdom hE hhd hatoms hlast
+  rw [← extRules_eq] at hout
+  have hQ : ∀ r ∈ extRules dss.flatten, (∀ a ∈ r.head, a ∈ (ctxOf (convert true (stepsCalls dss)) defs).dom) ∧
+      (∀ a ∈ r.body.atoms, a ∈ (ctxOf (convert true (stepsCalls dss)) defs).dom) ∧ r.body.Ok := by
+    have heff : ∀ a ∈ ((extCalls dss.flatten).map (·.1)).filter (fun a => !(headsOf dss.flatten).contains a), a ∈ (ctxOf (convert true (stepsCalls dss)) defs).dom := by
+      intro a ha
+      rw [← hatoms] at ha
+      obtain ⟨p, hp, rfl⟩ := List.mem_map.mp (List.mem_filter.mp ha).1
+      exact hdom p hp
+    intro r hr
+    unfold extRules at hr
+    rcases List.mem_append.mp hr with h | h
+    · obtain ⟨a, ha, rfl⟩ := List.mem_map.mp h
+      refine ⟨?_, by intro b hb; simp [Body.atoms] at hb, by intro l hl; cases hl⟩
+      intro b hb; simp only [List.mem_singleton] at hb; subst hb
+      exact heff b (List.mem_filter.mp ha).1
+    · split at h
+      · cases h
+      · simp only [List.mem_singleton] at h; subst h
+        refine ⟨?_, by intro b hb; simp [Body.atoms] at hb, by intro l hl; cases hl⟩
+        intro b hb; exact heff b (List.mem_filter.mp hb).1
+  have tr2 := PotasscoVerif.C02.Trans.append_ren tr (extRules dss.flatten) hQ
+  rw [← hout] at tr2
+  exact tr2
+
+/-- **C02 (several steps WITH externals, extension on: answer sets and shown symbols)** -/
+theorem C02_steps_equivalence_ext (dss : List (List Call)) (hx : ∀ ds ∈ dss, ∀ d ∈ ds, PlainOk d) (hnh : ∀ ds ∈ dss, ∀ d ∈ ds, isHeu d = false) :
+    ∃ E : I → I,
+      (∀ X, Stable (progOf dss.flatten) X →
+        Stable (progOf (convert true (stepsCalls dss)).out) (E X) ∧ E X 1 = false ∧ restrict (convert true (stepsCalls dss)) (E X) = X) ∧
+      (∀ X', Stable (progOf (convert true (stepsCalls dss)).out) X' → X' 1 = false →
+        Stable (progOf dss.flatten) (restrict (convert true (stepsCalls dss)) X') ∧ E (restrict (convert true (stepsCalls dss)) X') = X') ∧
+      (∀ X name, shown dss.flatten X name ↔ shownOut (convert true (stepsCalls dss)).out (E X) name) := by
+  obtain ⟨defs, hj, hko⟩ := C02_steps_outputs true dss hx hnh (Or.inr rfl)
+  have ok := ctx_ok hj
+  have tr2 := steps_trans_ext_of dss hx hj
+  refine ⟨fun X => (ctxOf (convert true (stepsCalls dss)) defs).E X X, ?_, ?_, ?_⟩
+  · intro X hs
+    have hs' := (stable_filter_kept_app _ _ X).mpr hs
+    obtain ⟨h1, h2, h3⟩ := translation_stable ok tr2 hs'
+    refine ⟨h1, h2, ?_⟩
+    rw [restrict_eq _ hj.inv defs]; exact h3
+  · intro X' hs h1
+    obtain ⟨h2, h3⟩ := translation_stable_back ok tr2 X' hs h1
+    rw [restrict_eq _ hj.inv defs]
+    exact ⟨(stable_filter_kept_app _ _ _).mp h2, h3.symm⟩
+  · intro X name
+    unfold shown shownOut
+    constructor
+    · rintro ⟨cond, hm, hb⟩
+      obtain ⟨n, hn, hrep⟩ := hko.fwd (name, cond) hm
+      exact ⟨[(n : Int)], hn, by rw [rep_val hj X n cond hrep]; exact hb⟩
+    · rintro ⟨c', hm, hb⟩
+      obtain ⟨n, cond, e, hc, hrep⟩ := hko.bwd (name, c') hm
+      simp only at e hc
+      subst e
+      exact ⟨cond, hc, by rw [← rep_val hj X n cond hrep]; exact hb⟩
+
 /-! #### non-vacuity: two steps; the name given in step 1 stays shown on its condition in step 2, a second name joins it -/
 def exStepsO : List (List Call) :=
   [[.rule 1 [1, 2] [], .output [97] [1, -2]],          -- {x1; x2}.  #output a : x1, not x2.
